@@ -175,17 +175,11 @@ theorem mkTimestamp_range (a b s n : Int) (h : mkTimestamp a b = .ok (.stamp s n
       have h2 := hc.2
       omega
 
-/-- **render-then-parse is the identity on the `Timestamp` objects outside F10** (normalisation is idempotent) -/
-theorem stamp_fixpoint (P : Params) (hI : IntLaw P.pyInt) (s n : Int) (h0 : 0 ≤ n) (h1 : n < 1000000000) (h2 : s < 0 → n = 0) :
-    parseTimestamp P (OMExpo.tsStr (.stamp s n)) = .ok (some (.stamp s n)) := by
-  obtain ⟨k, rfl⟩ := Int.eq_ofNat_of_zero_le h0
-  have hk : k < 1000000000 := by omega
-  have := parseTimestamp_stamp P hI s k hk
-  show parseTimestamp P (OMExpo.stampStr s (k : Int)) = _
-  rw [this]
-  by_cases hs : s < 0
-  · have := h2 hs
-    simp [hs]; omega
-  · simp [hs]
+/-- **render-then-parse is the identity on every `Timestamp` object the parser builds** (normalisation is idempotent; before
+7b52129 the negative ones with a fraction were written with two minus signs: F10) -/
+theorem stamp_fixpoint (P : Params) (hI : IntLaw P.pyInt) (s n : Int)
+    (h1 : 0 ≤ s → 0 ≤ n ∧ n < 1000000000) (h2 : s < 0 → -1000000000 < n ∧ n ≤ 0) :
+    parseTimestamp P (OMExpo.tsStr (.stamp s n)) = .ok (some (.stamp s n)) :=
+  parseTimestamp_stamp P hI s n h1 h2
 
 end PromVerif.Lemmas.OMRt
